@@ -57,6 +57,35 @@ def child(mod, job_fd: int, res_fd: int) -> None:
     write_frame(res_fd, kind, payload)
 
 
+def immortalize() -> int:
+    """Marks every object alive in the warm parent as immortal (CPython 3.12 refcount
+    sentinel), so that children do not dirty - and copy - the parent's pages merely by
+    taking references.  Pure performance measure for this sandbox, where copy-on-write
+    faults are extremely expensive under parallel load; objects created later are not
+    affected and no Python-visible behaviour changes (VERIF_IMMORTAL=0 turns it off)."""
+    import ctypes
+    if sys.version_info[:2] < (3, 12) or ctypes.sizeof(ctypes.c_ssize_t) != 8:
+        return 0
+    imm = 0xFFFFFFFF
+    seen: set[int] = set()
+    stack = gc.get_objects()
+    from_address = ctypes.c_ssize_t.from_address
+    n = 0
+    while stack:
+        o = stack.pop()
+        i = id(o)
+        if i in seen:
+            continue
+        seen.add(i)
+        if o is seen or o is stack:
+            continue
+        from_address(i).value = imm
+        n += 1
+        if gc.is_tracked(o):
+            stack.extend(gc.get_referents(o))
+    return n
+
+
 def main() -> None:
     prop_mod, job_fd, res_fd = sys.argv[1], int(sys.argv[2]), int(sys.argv[3])
     try:
@@ -71,6 +100,8 @@ def main() -> None:
     if hasattr(mod, "warm"):
         mod.warm()
     gc.collect()
+    if os.environ.get("VERIF_IMMORTAL", "1") != "0":
+        immortalize()
     gc.freeze()
     write_frame(res_fd, b"W", b"{}")
     while True:
